@@ -292,7 +292,7 @@ def opLocks (j : Json) : R Json := do
 /-- op "redial": the redial-goroutine events of one client connection, with their hook times. -/
 def opRedial (j : Json) : R Json := do
   let cj ← fld j "cfg"
-  let cfg : Redial.Cfg := { reconnect := ← bool cj "reconnect", minDelay := ← nat cj "minDelay" }
+  let cfg : Redial.Cfg := Redial.Cfg.ofBackoff (← bool cj "reconnect") { minDelay := ← nat cj "minDelay", maxDelay := ← nat cj "maxDelay" }
   let es ← (arrD j "events").mapM (fun e => do
     let t ← nat e "t"
     match (← str e "e") with
